@@ -339,14 +339,18 @@ def c06(work, tier, seed):
 def mc_search(work, rep, tier, invariants, shift=True):
     """TLC on the algorithm model (MCSearch) against the reference semantics (Search.tla)."""
     quick = tier == "quick"
-    runs = [("ladder", {"Family": '"ladder"', "TreeDepth": 2, "MaxLen": 5 if quick else 7}),
-            ("all", {"Family": '"all"', "TreeDepth": 2 if quick else 3, "MaxLen": 2})]
+    runs = [("ladder", {"Family": '"ladder"', "TreeDepth": 2, "MaxLen": 5 if quick else 7, "SmallLeaves": "FALSE"}),
+            ("all", {"Family": '"all"', "TreeDepth": 2, "MaxLen": 2, "SmallLeaves": "FALSE"})]
+    if not quick and "WindowClips" not in invariants:
+        # every tree of depth <= 3 over the reduced leaf set (365 k trees)
+        runs.append(("all3", {"Family": '"all"', "TreeDepth": 3, "MaxLen": 2, "SmallLeaves": "TRUE"}))
     tot = {}
     for name, consts in runs:
         consts = dict(consts)
         consts["ShiftWindow"] = "TRUE" if shift else "FALSE"
         cfg = vlib.cfg_text(constants=consts, invariants=invariants)
-        r = vlib.tlc(work, "MCSearch", cfg, workers=vlib.NCPU, timeout=3300, heap="12g", name="MCSearch-" + name)
+        r = vlib.tlc(work, "MCSearch", cfg, workers=vlib.NCPU, timeout=3300, heap="12g", name="MCSearch-" + name,
+                     extra=["-maxSetSize", "4000000"])
         vlib.need_tlc_ok(r, "MCSearch " + name)
         rep.add_tlc(r)
         tot[name] = {"trees": r.distinct, "wall_s": round(r.wall, 1), "constants": consts}
